@@ -550,6 +550,13 @@ func TestVerif_C13_Reload(t *testing.T) {
 	out := verifrt.NewOut(t)
 	defer out.Close()
 	dir := t.TempDir()
+	// dumpPackets writes capture files into the working directory: never into the repository
+	if wd, err := os.Getwd(); err == nil {
+		defer os.Chdir(wd) //nolint:errcheck
+	}
+	if err := os.Chdir(dir); err != nil {
+		t.Fatal(err)
+	}
 	w := func(name string, b []byte) string {
 		p := filepath.Join(dir, name)
 		if err := os.WriteFile(p, b, 0o600); err != nil {
